@@ -393,7 +393,7 @@ class C14(Check):
                 want = None
                 enders = [k for k in kinds if k in ('on-stop', 'reached', 'error')]
                 overlapping = any(r['t1'] > last_start[1] - 0.01 and r['op']['kind'] in ('stop', 'change') and
-                                  r['t0'] > last_start[1] + 0.01 and
+                                  r['t0'] > last_start[1] and
                                   any(abs(t - r['t0']) < 0.05 or abs(t - r['t1']) < 0.05 or r['t0'] <= t <= r['t1'] for t in ends)
                                   for r in ctx['reqs'])
                 if len(enders) != 1 or overlapping or last_start[4]:
